@@ -191,7 +191,7 @@ def plan(run):
     quick = run.tier == "quick"
     nmax = 8 if quick else 12
     run.rule = (f"rows n in 0..{nmax} x nrow in {NROWS} x strategy in {STRATS} x every composition of the rows into group runs (n<=6; run lengths "
-                "{1,2,n-1,n} beyond) x height vectors {1,2}^n (n<=5, plain and page_by; quick n<=4) x removed column first/middle/last; radius-1 deviations: header "
+                "{1,2,n-1,n} beyond; every composition again for n=11 (thorough 9..13) on pages of 10 and 50 rows) x height vectors {1,2}^n (n<=5, plain and page_by; quick n<=4) x removed column first/middle/last; radius-1 deviations: header "
                 "mode, footnote/source mode, placements, value classes incl. blank-padded strings, ints, floats, nulls, text_convert off with '^ _ >= <='. "
                 "non-trivial = >= 2 pages or a removed column or a wrapped row; distinct = distinct case")
     run.assumptions = ["data cells are identified by D<r>.<c> tags (A/B per section); numeric columns by position", "group_by is absent (C13 covers suppression)"]
@@ -224,6 +224,15 @@ def plan(run):
                 for keys in (compositions(n) if n <= 4 else run_vectors(n)[::3]):
                     cases.append({"n": n, "nrow": nrow, "strat": "page_by", "keys": keys, "heights": list(hs), "pos": "first"})
     run.layer("core-product", "mc.props.c02:eval_case", cases, chunk=60, total=len(cases))
+    # long pages: EVERY composition of n rows into group runs on pages that hold many rows (group boundaries at
+    # page-relative rows 8 and beyond, several boundaries on one page, boundaries in every relative order)
+    longp = []
+    for n in ((11,) if quick else (9, 10, 11, 12, 13)):
+        for strat in ("page_by", "page_by2") if quick else ("page_by", "page_by2", "subline_by+page_by", "page_by_newpage_firstrow"):
+            for nrow in (50, 10) if quick else (50, 10, 12):
+                for keys in compositions(n):
+                    longp.append({"n": n, "nrow": nrow, "strat": strat, "keys": keys, "pos": ("first", "middle", "last")[(len(longp) + run.seed) % 3]})
+    run.layer("long-pages-all-compositions", "mc.props.c02:eval_case", longp, chunk=100, total=len(longp))
     # radius-1 deviations around paginated anchors
     dev = []
     anchors = [{"n": 6, "nrow": 3, "strat": s, "keys": [0, 0, 1, 1, 2, 2], "pos": "middle"} for s in ("plain", "page_by", "subline_by", "page_by_newpage_firstrow")]
